@@ -23,7 +23,7 @@ func checkC20(c *Ctx) {
 	c.importFrom(checkC08, "C20.3", "C08.3")
 	// what the checking side compares: every certificate a verifier accepts went through the threshold comparison
 	// (C02.1), including the certificate of a proposal that also carries an aggregate QC (C02.7)
-	c.importFrom(checkC02, "C20.4", "C02.1", "C02.6", "C02.7")
+	c.importFrom(checkC02, "C20.4", "C02.1", "C02.4", "C02.6", "C02.7")
 	// the forming side of votes: the voting machine and the Kauri aggregator emit at exactly QuorumSize() (C09.2, C09.7/threshold)
 	c.importFrom(checkC09, "C20.5", "C09.2", "C09.7/threshold")
 	// the count of a decoded bit field is what the thresholds are compared with (C19.2: recounted from the bytes)
